@@ -217,7 +217,7 @@ def describe_order(env: dict[str, Any], roles: list[str], bools: list[str]) -> s
 
 def run(check: Check) -> None:
     p = check.program
-    for cls in ["General", "First", "Last", "Highest", "Lowest", "Proportional", "Threshold"]:
+    for cls in ACTIVATIONS:
         a = Activate(check, cls)
         common_rules(a)
         if cls == "General":
@@ -237,6 +237,40 @@ def run(check: Check) -> None:
 
 
 # ------------------------------------------------------------------------------------- shared order rules
+def operator_wiring(a: Activate, roles: tuple[str, ...] = ("conjunction", "disjunction", "implication")) -> None:
+    """P2: the operators handed to activate_with / trigger originate from the block's own conjunction / disjunction /
+    implication, in that position (shared with C01 and C06: the connectives are computed with the block's operators
+    under every activation method, not only General)."""
+    check, r, fn = a.check, a.r, a.fn
+    awith = method_calls_on(r, a.is_rule, "activate_with", a.body)
+    if not awith:
+        raise AnalysisError(f"{a.cls}.activate: no activate_with call on a rule of the block")
+    for n, c, t in awith:
+        args = t[2]
+        if "conjunction" in roles:
+            check.require(len(args) == 2 and is_path(args[0], f"{a.rb}.conjunction"), "P2", a.construct("conjunction"),
+                          f"first operator passed to activate_with originates from {a.rb}.conjunction"
+                          f" (found {show(args[0]) if args else '<none>'})", loc(fn, n))
+        if "disjunction" in roles:
+            check.require(len(args) == 2 and is_path(args[1], f"{a.rb}.disjunction"), "P2", a.construct("disjunction"),
+                          f"second operator passed to activate_with originates from {a.rb}.disjunction"
+                          f" (found {show(args[1]) if len(args) > 1 else '<none>'})", loc(fn, n))
+    if "implication" not in roles:
+        return
+    # every trigger anywhere in the method gets the block's implication
+    trig = method_calls_on(r, lambda t: True, "trigger")
+    if not trig:
+        raise AnalysisError(f"{a.cls}.activate: no trigger call")
+    for n, c, t in trig:
+        args = t[2]
+        check.require(len(args) == 1 and is_path(args[0], f"{a.rb}.implication"), "P2", a.construct("implication"),
+                      f"operator passed to trigger originates from {a.rb}.implication"
+                      f" (found {show(args[0]) if args else '<none>'})", loc(fn, n))
+
+
+ACTIVATIONS = ["General", "First", "Last", "Highest", "Lowest", "Proportional", "Threshold"]
+
+
 def common_rules(a: Activate) -> None:
     check, r, cfg, fn = a.check, a.r, a.cfg, a.fn
     head, body = a.main_head, a.body
@@ -263,24 +297,7 @@ def common_rules(a: Activate) -> None:
         check.require(a.filtered_loaded, "O-all", a.construct("selection"),
                       "the main loop ranges over the loaded rules of the block" if a.filtered_loaded else
                       f"the main loop ranges only over the rules selected by `{a.filter}`", loc(fn, head))
-    # O-seq: activate_with only for loaded rules; it precedes trigger in the iteration
-    for n, c, t in awith:
-        args = t[2]
-        check.require(len(args) == 2 and is_path(args[0], f"{a.rb}.conjunction"), "P2", a.construct("conjunction"),
-                      f"first operator passed to activate_with originates from {a.rb}.conjunction"
-                      f" (found {show(args[0]) if args else '<none>'})", loc(fn, n))
-        check.require(len(args) == 2 and is_path(args[1], f"{a.rb}.disjunction"), "P2", a.construct("disjunction"),
-                      f"second operator passed to activate_with originates from {a.rb}.disjunction"
-                      f" (found {show(args[1]) if len(args) > 1 else '<none>'})", loc(fn, n))
-    # every trigger anywhere in the method gets the block's implication
-    trig = method_calls_on(r, lambda t: True, "trigger")
-    if not trig:
-        raise AnalysisError(f"{a.cls}.activate: no trigger call")
-    for n, c, t in trig:
-        args = t[2]
-        check.require(len(args) == 1 and is_path(args[0], f"{a.rb}.implication"), "P2", a.construct("implication"),
-                      f"operator passed to trigger originates from {a.rb}.implication"
-                      f" (found {show(args[0]) if args else '<none>'})", loc(fn, n))
+    operator_wiring(a)
     # O-vec
     if a.cls in VECTOR_INCAPABLE:
         asserts = [(n, c, t) for n, c, t in method_calls_on(r, lambda t: t == ("param", "self"), "assert_is_not_vector", body)
